@@ -3,6 +3,7 @@ package props
 import (
 	"fmt"
 	"go/token"
+	"go/types"
 	"strings"
 
 	"golang.org/x/tools/go/ssa"
@@ -37,16 +38,49 @@ func c16(r *Report) {
 	ok := SuccessReturn()
 	r.Gate(Gate{ID: "C16.verify.jwt-format", Fn: vr, Effect: ok, Check: CmpCheck("Format() == jwt_vp", token.EQL, CallV(Fn(vcPkg, "VerifiablePresentation", "Format"), -1), StrV("jwt_vp"), true)})
 	r.Gate(Gate{ID: "C16.verify.has-id", Fn: vr, Effect: ok, Check: CmpCheck("presentation.ID == nil is false", token.EQL, FieldV("VerifiablePresentation", "ID"), NilV(), false)})
-	r.Gate(Gate{ID: "C16.verify.audience", Fn: vr, Effect: ok, Check: ErrCheck(Fn(d, "", "validateAudience"))})
+	// the audience test is either the helper validateAudience(definition, token audience) or — when it has been inlined —
+	// slices.Contains(token audience, definition.ID)
+	audInline := CallCheck(Fn("std:slices", "", "Contains"), -1, IsTrue)
+	audInline.Desc = "slices.Contains(JWT().Audience(), definition.ID)"
+	audInline.Filter = func(ci ssa.CallInstruction) bool {
+		return CallV(Fn(jwtPkg, "Token", "Audience"), -1).M(CallArg(ci.Common(), 0)) && FieldV("ServiceDefinition", "ID").M(CallArg(ci.Common(), 1))
+	}
+	if p.Func(d, "", "validateAudience") != nil {
+		r.Gate(Gate{ID: "C16.verify.audience", Fn: vr, Effect: ok, Check: ErrCheck(Fn(d, "", "validateAudience")), Alt: []Check{audInline}})
+	} else {
+		r.Gate(Gate{ID: "C16.verify.audience", Fn: vr, Effect: ok, Check: audInline})
+	}
 	r.Gate(Gate{ID: "C16.verify.expiration-set", Fn: vr, Effect: ok, Check: CallCheck(Fn("std:time", "Time", "IsZero"), -1, IsFalse)})
 	r.Gate(Gate{ID: "C16.verify.max-validity", Fn: vr, Effect: ok, Check: CmpCheck("time.Until(exp) <= PresentationMaxValidity seconds", token.LEQ, CallV(Fn("std:time", "", "Until"), -1), MulConstV(FieldV("ServiceDefinition", "PresentationMaxValidity"), 1000000000), true)})
 	r.ArgIs("C16.verify.max-validity.of-vp-expiration", vr, Fn("std:time", "", "Until"), 0, CallV(Fn(jwtPkg, "Token", "Expiration"), -1), 1)
-	va := p.Func(d, "", "validateAudience")
-	r.Gate(Gate{ID: "C16.verify.audience.is-service-id", Fn: va, Effect: ok, Check: CmpCheck("audienceID == service.ID", token.EQL, AnyV(), FieldV("ServiceDefinition", "ID"), true)})
-	r.ArgIs("C16.verify.audience.of-this-service", vr, Fn(d, "", "validateAudience"), 0, ParamV("definition"), 1)
-	r.ArgIs("C16.verify.audience.of-the-token", vr, Fn(d, "", "validateAudience"), 1, CallV(Fn(jwtPkg, "Token", "Audience"), -1), 1)
+	if va := p.Func(d, "", "validateAudience"); va != nil || vr == nil {
+		r.Gate(Gate{ID: "C16.verify.audience.is-service-id", Fn: va, Effect: ok, Check: CmpCheck("audienceID == service.ID", token.EQL, AnyV(), FieldV("ServiceDefinition", "ID"), true)})
+		r.ArgIs("C16.verify.audience.of-this-service", vr, Fn(d, "", "validateAudience"), 0, ParamV("definition"), 1)
+		r.ArgIs("C16.verify.audience.of-the-token", vr, Fn(d, "", "validateAudience"), 1, CallV(Fn(jwtPkg, "Token", "Audience"), -1), 1)
+	} else {
+		// inlined: the argument constraints are part of the gate's call filter above; the service is the one being verified
+		n := 0
+		for _, ci := range Calls(vr, Fn("std:slices", "", "Contains")) {
+			if audInline.Filter(ci) {
+				n++
+				if fb := FieldBase(CallArg(ci.Common(), 1)); fb == nil || !IsParamOrItsCell(fb, "definition") {
+					r.Bad("C16.verify.audience.of-this-service @ "+p.FuncName(vr), "ARG: the service whose id must be in the audience is the `definition` parameter", p.Pos(ci.Pos()), "the id compared is "+AccessPath(CallArg(ci.Common(), 1), 0))
+				}
+			}
+		}
+		if n == 0 {
+			r.Lost("C16.verify.audience.inlined", "ARG: audience test on the token's audience and the service id", "neither validateAudience nor an inlined slices.Contains(JWT().Audience(), definition.ID) found")
+		} else {
+			r.OK("C16.verify.audience.inlined @ "+p.FuncName(vr), "ARG: the inlined audience test is slices.Contains(token audience, definition.ID)", p.Pos(vr.Pos()), fmt.Sprintf("%d site(s)", n), true)
+		}
+	}
 	r.Gate(Gate{ID: "C16.verify.signer", Fn: vr, Effect: ok, Check: ErrCheck(Fn("vcr/credential", "", "PresentationSigner"))})
-	r.Gate(Gate{ID: "C16.verify.did-method", Fn: vr, Effect: ok, Check: CallCheck(Fn("std:slices", "", "Contains"), -1, IsTrue),
+	didMethod := CallCheck(Fn("std:slices", "", "Contains"), -1, IsTrue)
+	didMethod.Desc = "slices.Contains(definition.DIDMethods, signer.Method)"
+	didMethod.Filter = func(ci ssa.CallInstruction) bool {
+		return FieldV("ServiceDefinition", "DIDMethods").M(CallArg(ci.Common(), 0))
+	}
+	r.Gate(Gate{ID: "C16.verify.did-method", Fn: vr, Effect: ok, Check: didMethod,
 		Alt: []Check{CmpCheck("len(DIDMethods) > 0 is false", token.LEQ, LenV(FieldV("ServiceDefinition", "DIDMethods")), IntV(0), true)}})
 	r.Gate(Gate{ID: "C16.verify.content-validator", Fn: vr, Effect: ok, Check: ErrCheck(Fn(d, "Module", "validateRegistration")), Alt: []Check{ErrCheck(Fn(d, "Module", "validateRetraction"))}})
 	r.Gate(Gate{ID: "C16.verify.retraction-only-for-retraction-type", Fn: vr, Effect: CallEffect(Fn(d, "Module", "validateRetraction")), Check: CallCheck(Fn(vcPkg, "VerifiablePresentation", "IsType"), -1, IsTrue)})
@@ -62,12 +96,30 @@ func c16(r *Report) {
 	}
 	r.Gate(Gate{ID: "C16.verify.signatures", Fn: vr, Effect: ok, Check: vp})
 	c16MethodOfSigner(r, vr)
+	c16ServiceRowWriters(r)
 	// registration content
 	vg := p.Func(d, "Module", "validateRegistration")
 	r.Gate(Gate{ID: "C16.registration.not-outliving-credentials", Fn: vg, Effect: ok, ForEach: true, Check: TimeOrder("credential expiration is before presentation expiration is false", FieldV("VerifiableCredential", "ExpirationDate"), CallV(Fn(jwtPkg, "Token", "Expiration"), -1), IsFalse),
 		Skip: []Check{CmpCheck("cred.ExpirationDate == nil", token.EQL, FieldV("VerifiableCredential", "ExpirationDate"), NilV(), true)}})
 	r.Gate(Gate{ID: "C16.registration.definition-match", Fn: vg, Effect: ok, Check: ErrCheck(Fn("vcr/pe", "PresentationDefinition", "Match"))})
-	r.Gate(Gate{ID: "C16.registration.all-and-only", Fn: vg, Effect: ok, Check: CmpCheck("len(matched) == len(presented)", token.EQL, LenV(CallV(Fn("vcr/pe", "PresentationDefinition", "Match"), 0)), LenV(FieldV("VerifiablePresentation", "VerifiableCredential")), true)})
+	// all and only: every presented credential must be one of the credentials the definition matched (fix: comparing the
+	// two counts left room for an arbitrary extra credential when one credential matched two descriptors). The membership
+	// set is filled from Match()'s result, and each presented credential passes the membership test.
+	r.Gate(Gate{ID: "C16.registration.all-and-only", Fn: vg, Effect: ok, ForEach: true, Check: Check{Desc: "matched[presented credential] is true", Pass: IsTrue,
+		Values: func(fn *ssa.Function) []ssa.Value {
+			var out []ssa.Value
+			for _, b := range fn.Blocks {
+				for _, in := range b.Instrs {
+					if lk, isLk := in.(*ssa.Lookup); isLk && !lk.CommaOk {
+						if m, isMap := lk.X.Type().Underlying().(*types.Map); isMap && types.Identical(m.Elem().Underlying(), types.Typ[types.Bool]) {
+							out = append(out, lk)
+						}
+					}
+				}
+			}
+			return out
+		}}})
+	c16MatchedSetFromMatch(r, vg)
 	c17ArgFrom(r, "C16.registration.match-on-presented", vg, Fn("vcr/pe", "PresentationDefinition", "Match"), 0, FieldV("VerifiablePresentation", "VerifiableCredential"), "the definition is matched against exactly the presented credentials")
 	// retraction content
 	rt := p.Func(d, "Module", "validateRetraction")
@@ -84,6 +136,7 @@ func c16(r *Report) {
 
 	// (3) client
 	us := p.Func(d, "clientUpdater", "updateService")
+	c16ClientProgress(r, us)
 	r.Gate(Gate{ID: "C16.client.validated-only-after-own-verification", Fn: us, Effect: CallEffect(Fn(d, "sqlStore", "updateValidated")), Check: ErrCheck(DynField("verifier"))})
 	r.Gate(Gate{ID: "C16.client.seed-checked-before-add", Fn: us, Effect: CallEffect(Fn(d, "sqlStore", "add")), Check: ErrCheck(Fn(d, "sqlStore", "wipeOnSeedChange"))})
 	r.Gate(Gate{ID: "C16.client.fetched", Fn: us, Effect: CallEffect(Fn(d, "sqlStore", "add")), Check: ErrCheck(Fn("discovery/api/server/client", "HTTPClient", "Get"))})
@@ -122,7 +175,12 @@ func c16MethodOfSigner(r *Report, vr *ssa.Function) {
 		r.Lost(key, rule, "function not found")
 		return
 	}
-	calls := Calls(vr, Fn("std:slices", "", "Contains"))
+	var calls []ssa.CallInstruction
+	for _, ci := range Calls(vr, Fn("std:slices", "", "Contains")) {
+		if FieldV("ServiceDefinition", "DIDMethods").M(CallArg(ci.Common(), 0)) {
+			calls = append(calls, ci)
+		}
+	}
 	r.Sites += len(calls)
 	if len(calls) != 1 {
 		r.Lost(key, rule, "slices.Contains call not found")
@@ -418,4 +476,150 @@ func c16ValidatedByPrimaryKey(r *Report) {
 		return
 	}
 	r.OK(key, rule, p.Pos(fn.Pos()), fmt.Sprintf("%d update(s), keyed on record.ID", n), true)
+}
+
+// c16ServiceRowWriters: who writes the discovery_service row (seed + last timestamp), and how. The row is created, if
+// absent, at start-up (FirstOrCreate: an existing row is left alone) and fully saved by the three functions that own the
+// timestamp/seed protocol. Any other write — in particular an insert/upsert at start-up, which resets seed and timestamp
+// of an existing row — breaks "clients converge" (timestamps restart below what clients already hold).
+func c16ServiceRowWriters(r *Report) {
+	p := r.P
+	byMethod := map[string][]Site{}
+	methods := []string{"Create", "Save", "Update", "Updates", "UpdateColumn", "UpdateColumns", "FirstOrCreate", "FirstOrInit", "Delete", "CreateInBatches"}
+	for _, m := range methods {
+		for _, s := range p.CallSites(gormModel(m, "serviceRecord"), false) {
+			byMethod[m] = append(byMethod[m], s)
+		}
+	}
+	r.Own(OwnSpec{ID: "C16.service-row.created-only-if-absent", Op: "FirstOrCreate(&serviceRecord)", Sites: byMethod["FirstOrCreate"], Min: 1,
+		Owners: map[string]string{"discovery.newSQLStore": "start-up: makes sure a row exists, leaves an existing row (seed, timestamp) alone"}})
+	r.Own(OwnSpec{ID: "C16.service-row.saved-only-by-the-timestamp-protocol", Op: "Save(&serviceRecord)", Sites: byMethod["Save"], Min: 3,
+		Owners: map[string]string{
+			"(*discovery.sqlStore).incrementTimestamp": "server: next timestamp inside the add transaction",
+			"(*discovery.sqlStore).setTimestamp":       "client: timestamp/seed received from the server",
+			"(*discovery.sqlStore).wipeOnSeedChange":   "client: seed change resets the list",
+			"(*discovery.sqlStore).wipeOnSeedChange$1": "client: seed change resets the list",
+		}})
+	var others []Site
+	for _, m := range methods {
+		if m == "FirstOrCreate" || m == "Save" {
+			continue
+		}
+		others = append(others, byMethod[m]...)
+	}
+	r.Own(OwnSpec{ID: "C16.service-row.no-other-writes", Op: "Create/Update/Delete/upsert of a serviceRecord", Sites: others, Min: 0, Owners: map[string]string{}})
+}
+
+// c16MatchedSetFromMatch: the membership set tested in validateRegistration is filled (with true) in a loop over the first
+// result of PresentationDefinition.Match.
+func c16MatchedSetFromMatch(r *Report, vg *ssa.Function) {
+	rule := "ARG: the set of acceptable credentials is built from the credentials returned by PresentationDefinition.Match"
+	if vg == nil {
+		r.Lost("C16.registration.matched-set-from-match", rule, "function not found")
+		return
+	}
+	key := "C16.registration.matched-set-from-match @ " + r.P.FuncName(vg)
+	var matchRes ssa.Value
+	for _, c := range Calls(vg, Fn("vcr/pe", "PresentationDefinition", "Match")) {
+		if call, ok := c.(*ssa.Call); ok {
+			for _, ref := range *call.Referrers() {
+				if ex, isEx := ref.(*ssa.Extract); isEx && ex.Index == 0 {
+					matchRes = ex
+				}
+			}
+		}
+	}
+	if matchRes == nil {
+		r.Lost(key, rule, "Match result not found")
+		return
+	}
+	loops := Loops(vg)
+	for _, b := range vg.Blocks {
+		for _, in := range b.Instrs {
+			mu, ok := in.(*ssa.MapUpdate)
+			if !ok {
+				continue
+			}
+			if v, isB := ConstBool(mu.Value); !isB || !v {
+				continue
+			}
+			r.Sites++
+			if l := InnermostLoop(loops, b); l != nil && rangesOver(l, matchRes) {
+				r.OK(key, rule, r.P.Pos(mu.Pos()), "filled in the loop over Match()'s credentials", true)
+				return
+			}
+		}
+	}
+	r.Bad(key, rule, r.P.Pos(vg.Pos()), "no `set[...] = true` inside a loop over the credentials returned by Match")
+}
+
+// c16ClientProgress: the client's replica converges — (a) entries are processed in registration (timestamp) order and each is
+// stored with its OWN timestamp, so an interrupted update resumes at the entry it stopped at (fix: every entry was stored
+// with the server's latest timestamp); (b) after the store was wiped because the seed changed, the response requested with
+// the old timestamp is discarded and the update starts over (fix: entries of the new server instance at or below the old
+// timestamp were never fetched).
+func c16ClientProgress(r *Report, us *ssa.Function) {
+	p := r.P
+	const d = "discovery"
+	add := Fn(d, "sqlStore", "add")
+	r.ArgIs("C16.client.entry-stored-with-its-own-timestamp", us, add, 3, FieldV("entry", "timestamp"), 1)
+	ruleO := "ORDER: the entries are sorted (by timestamp) before the first one is stored"
+	keyO := "C16.client.entries-in-timestamp-order"
+	ruleW := "ORDER: after wipeOnSeedChange the stored timestamp is read again, and a timestamp of 0 (wiped) leads to a restart of updateService instead of applying the response"
+	keyW := "C16.client.restart-after-wipe"
+	if us == nil {
+		r.Lost(keyO, ruleO, "updateService not found")
+		r.Lost(keyW, ruleW, "updateService not found")
+		return
+	}
+	keyO += " @ " + p.FuncName(us)
+	keyW += " @ " + p.FuncName(us)
+	adds := Calls(us, add)
+	sorts := Calls(us, AnyOf(Fn("std:sort", "", "SliceStable"), Fn("std:sort", "", "Slice"), Fn("std:slices", "", "SortFunc"), Fn("std:slices", "", "SortStableFunc")))
+	r.Sites += len(adds) + len(sorts)
+	okO := len(adds) > 0 && len(sorts) > 0
+	for _, a := range adds {
+		dom := false
+		for _, s := range sorts {
+			if InstrDominates(s, a) {
+				dom = true
+			}
+		}
+		okO = okO && dom
+	}
+	if okO {
+		r.OK(keyO, ruleO, p.Pos(us.Pos()), "sort dominates every store.add", true)
+	} else {
+		r.Bad(keyO, ruleO, p.Pos(us.Pos()), "store.add is reachable without a preceding sort of the response's entries")
+	}
+	wipes := Calls(us, Fn(d, "sqlStore", "wipeOnSeedChange"))
+	var reread *ssa.Call
+	for _, g := range Calls(us, Fn(d, "sqlStore", "getTimestamp")) {
+		for _, w := range wipes {
+			if c, ok := g.(*ssa.Call); ok && InstrDominates(w, g) {
+				reread = c
+			}
+		}
+	}
+	r.Sites += len(wipes)
+	if reread == nil {
+		r.Bad(keyW, ruleW, p.Pos(us.Pos()), "the stored timestamp is not read again after wipeOnSeedChange: a wipe goes unnoticed")
+		return
+	}
+	var ts ssa.Value
+	for _, ref := range *reread.Referrers() {
+		if ex, ok := ref.(*ssa.Extract); ok && ex.Index == 0 {
+			ts = ex
+		}
+	}
+	restart := SSAFn(us, "updateService (start over)")
+	g := Gate{Fn: us, Effect: CallEffect(restart), Check: CmpCheck("timestamp after wipe == 0", token.EQL, VPat{Desc: "the re-read timestamp", M: func(v ssa.Value) bool { return v == ts }}, IntV(0), true)}
+	res := p.RunGate(&g)
+	if ts == nil || res.CheckSites == 0 || res.EffectSites == 0 || len(res.Violations) > 0 {
+		r.Bad(keyW, ruleW, p.Pos(reread.Pos()), "no restart of updateService behind `re-read timestamp == 0`")
+		return
+	}
+	// and the restart is taken whenever that holds (the response is not applied): the zero edge leads only to the restart
+	r.MustReach(MustReach{ID: "C16.client.restart-after-wipe.response-discarded", Fn: us, Cond: CmpCheck("timestamp after wipe == 0", token.EQL, VPat{Desc: "the re-read timestamp", M: func(v ssa.Value) bool { return v == ts }}, IntV(0), true), Target: restart})
+	r.OK(keyW, ruleW, p.Pos(reread.Pos()), "getTimestamp after the wipe; == 0 restarts", true)
 }
